@@ -38,11 +38,15 @@ static std::optional<Failure> check_cb(Run &R, int mode, int tld, int rc, int ma
     return std::nullopt;
 }
 
-// class index of a real address by the oracles: 0..8 class, -1 unlisted, -2 not fqdn, -3 literal
+// class index of a real address by the oracles: 0..8 class, -1 unlisted, -2 not fqdn, -3 literal,
+// -8 root-dotted name: the listed properties define the TLD class of names without root dot only (C09), so no class
+// is asserted; what is asserted is that the policy is applied to whatever class the record reports and that the
+// answer is the same in the three ASCII modes and in both builds
 static int oracle_class(const Bytes &addr) {
     Bytes d = addr.substr(addr.rfind('@') + 1);
     if (d[0] == '[') return -3;
     Bytes af = d; if (!ref::pure_ascii(d)) { ToAscii t = to_ascii(d); if (t.rc != IDN2_OK) return -9; af = t.out; }
+    if (!af.empty() && af.back() == '.') return -8;
     if (ref::reserved(af)) return 7;
     std::vector<Bytes> l = ref::split_labels(af);
     if (l.size() < 2) return -2;
@@ -58,7 +62,21 @@ static std::optional<Failure> check_real(Run &R, Obj &o, int mode, int tld, cons
     A->obj_set_allow(o.p, mask);
     v_outcome out = o.is_email_tail(TB, addr); R.eval();
     Want w;
-    if (!tld || k == -3) w = {1, C->E_NO_ERROR};
+    if (k == -8 && tld) {
+        static Obj *REF[2] = {nullptr, nullptr};   // default build: mode 822 and mode 6531, TLD checking on
+        for (int i = 0; i < 2; i++) if (!REF[i]) { REF[i] = new Obj(VAR2[0]); REF[i]->configure(i ? 3 : 0, 1); }
+        Obj *r = REF[mode == 3]; VAR2[0]->obj_set_allow(r->p, mask); v_outcome ro = r->is_email_tail(TB, addr); R.eval();
+        char t[16]; snprintf(t, sizeof t, "%x", mask);
+        std::string where = std::string(build ? "[EAV_EXTRA build] " : "") + "mode " + ref::MODE_NAME[mode] + " tld_check=1 allow_tld=0x" + t + " root-dotted address '" + show(addr) + "': ";
+        R.count("real-root-dotted");
+        if (out.ret != ro.ret || out.errcode != ro.errcode || out.rc != ro.rc)
+            return Failure{"policy-real", cs.str(), where + outcome_str(out) + " but the default build in mode " + (mode == 3 ? "6531" : "822") + " -> " + outcome_str(ro) + " (same domain, same mask)"};
+        if (out.rc > 0) { int i = -1; for (int q = 0; q < 9; q++) if (C->tld_type[q] == out.rc) i = q;
+            if (i < 0 || out.ret != ((mask & C->bit[i]) != 0) || out.errcode != (out.ret ? C->E_NO_ERROR : C->eeav_tld[i])) return Failure{"policy-real", cs.str(), where + outcome_str(out) + ": the decision does not follow the bit of the class the record reports"}; }
+        else if (out.ret != 0 || out.errcode != -out.rc) return Failure{"policy-real", cs.str(), where + outcome_str(out) + ": accepted without a TLD class although TLD checking is on"};
+        return std::nullopt;
+    }
+    if (!tld || k == -3 || k == -8) w = {1, C->E_NO_ERROR};
     else if (k == -1) w = {0, C->E_TLD_INVALID};
     else if (k == -2) w = {0, C->E_NOT_FQDN};
     else { bool ok = (mask & C->bit[k]) != 0; w = {ok ? 1 : 0, ok ? C->E_NO_ERROR : C->eeav_tld[k]}; }
@@ -84,7 +102,8 @@ static std::vector<Bytes> real_addresses() {
     // IDNA full-stop look-alikes as the only separators, fullwidth spellings of reserved names, an upper-case A-label TLD
     for (const char *d : {"iana\xE3\x80\x82org", "\xD0\xBF\xD0\xBE\xD1\x87\xD1\x82\xD0\xB0\xE3\x80\x82\xD1\x80\xD1\x84", "mail\xEF\xBC\x8Eru", "a\xEF\xBD\xA1" "b\xEF\xBD\xA1" "com",
                           "mail.\xEF\xBD\x8C\xEF\xBD\x8F\xEF\xBD\x83\xEF\xBD\x81\xEF\xBD\x8C\xEF\xBD\x88\xEF\xBD\x8F\xEF\xBD\x93\xEF\xBD\x94", "\xEF\xBD\x85\xEF\xBD\x98\xEF\xBD\x81\xEF\xBD\x8D\xEF\xBD\x90\xEF\xBD\x8C\xEF\xBD\x85.com",
-                          "Example.COM", "www.eXample.Org", "x.XN--P1AI", "4.3.2.1.in-addr.arpa", "example.test", "mail.example.invalid", "EXAMPLE.LocalHost", "example.example", "a.b.example.onion"})
+                          "Example.COM", "www.eXample.Org", "x.XN--P1AI", "4.3.2.1.in-addr.arpa", "example.test", "mail.example.invalid", "EXAMPLE.LocalHost", "example.example", "a.b.example.onion",
+                          "example.com.", "host.localhost.", "www.test.", "iana.org.", "EXAMPLE.ORG.", "x.onion.", "localhost.", "a.ru."})
         v.push_back(Bytes("u@") + d);
     return v;
 }
